@@ -23,7 +23,7 @@ def run(ctx):
         if not (w.violated and ("Invariant %s is violated" % inv) in w.out):
             raise ToolError("expected %s to be violated under %s (teeth / vacuity witness)" % (inv, cfg))
     # 2. the implementation
-    args = ["c35-run", "--seed", ctx.seed] + (["--formats", QUICK_FORMATS, "--cap", 10, "--shorts", 6] if ctx.quick else ["--cap", 400, "--shorts", 60])
+    args = ["c35-run", "--seed", ctx.seed] + (["--formats", QUICK_FORMATS, "--cap", 40, "--shorts", 6] if ctx.quick else ["--cap", 400, "--shorts", 60])
     p = vh(args, timeout=20000)
     recs = [json.loads(l) for l in p.stdout.splitlines() if l.strip()]
     runs = [x for x in recs if x["e"] == "run"]
@@ -49,7 +49,7 @@ def run(ctx):
         for c in classes:
             if c.startswith("fault-hidden"):
                 outcome = "same" if x["same"] else "differs:%s" % x.get("state")
-                ctx.violation("fault-hidden:%s:%s:%s" % (x.get("catcher", "?"), outcome, x["op"]),
+                ctx.violation("fault-hidden:%s:%s:%s:%s" % (x.get("catcher", "?"), outcome, x["op"], x["format"]),
                               "the %d-th %s on stream %d failed (%s) but %s on %s returned Ok (%s)" % (x["k"], x["kind"], x["stream"], x["mode"], x["op"], x["format"], outcome), case)
             elif c == "chunking-visible":
                 ctx.violation("chunking-visible:%s:%s" % (x["op"], x["format"]), "%s on %s gives a different result when the stream returns short reads/writes" % (x["op"], x["format"]), case)
